@@ -30,8 +30,8 @@ TRUSTED = ["hand-written Gallina model coq/Model/Keys.v of src/keypair/{private_
            "coq/Model/Asm.v (from_asm) for the two script builders; Prim/Der.v only to recognise well-formed signatures in the unlocking cases",
            "the execution instance (BigZ) of the curve is used by the run; the theorems are about the reference instance over Z "
            "(equal by Proofs/Secp256k1Refine.v modulo the Uint63 axioms, which no pinned theorem depends on)"]
-ASSUMPTIONS = ["sqrt_ok (Euler's criterion for the field prime p, i.e. primality of p) is an explicit premise of C07_pubkey_point_accepted and "
-               "C07_compress_decompress_inverse (compressed encodings of a GIVEN curve point are accepted / decompressed)",
+ASSUMPTIONS = ["(none about number theory: sqrt_ok, the square-root fact behind compressed keys, is now a theorem - Proofs/SecpPrimes.v proves the field "
+               "prime prime from a Pratt certificate checked inside Coq and derives it with Fermat's little theorem, Proofs/Primality.v)",
                "C07_to_public_key assumes d*G is not the identity (group order of G; not proved for the concrete formulas)",
                "an accepted compressed encoding equals the encoding of the decoded point when y <> 0 (no curve point has y = 0; needs p prime)",
                "text arguments are ASCII; non-UTF-8 / non-ASCII strings are outside the model (bs58 rejects every byte >= 0x80)",
